@@ -6,9 +6,12 @@
    FIFO, a stopped actor never handles a message again. [plan fuse p] is the materializer's stage list
    for the operator description p (stage fusion on/off). [kok] names the covered stage kinds:
    flowActor (Map, TryMap incl. Resume, Filter, FlatMap, Flatten, Scan, Deduplicate, Buffer, Map-on-batches),
-   fusedFlowActor without Resume, and the repaired batchFlowActor with size >= 1. *)
+   fusedFlowActor without Resume, the batchFlowActor with size >= 1, and the ordered parallelMapActor
+   (OrderedParallelMap: workers finish in any order, the resequencing heap restores input order).
+   The unordered parallelMapActor (ParallelMap) has its own theorem below (permutation). *)
 From Coq Require Import ZArith List Bool.
-From GV Require Import C45.Model C45.Trace C45.Sem C45.Chain C45.StageBatch C45.Main C45.Spec C45.Proofs.
+From GV Require Import C45.Model C45.Trace C45.Sem C45.Chain C45.StageBatch C45.StagePar C45.StageParU C45.Demand C45.Main C45.Spec C45.Proofs.
+From Coq Require Import Permutation.
 Import ListNotations.
 Open Scope Z_scope.
 
@@ -80,7 +83,29 @@ Theorem C45_batch_before_repair_refuted :
   ~ approx (n_cout n) (ksem (KBatch0 1 default_cfg) ([VZ 1; VZ 2], [])).
 Proof. exact batch0_refuted. Qed.
 
+(* ParallelMap (unordered): for every behaviour of the stage in isolation — any well-formed upstream trace,
+   any downstream messages, workers finishing in ANY order — when the stage has completed downstream, the
+   elements it emitted are a permutation of the images of the elements it consumed. *)
+Theorem C45_parallel_unordered_is_a_permutation : forall (w : nat) (a b : Z) (n : node kstate),
+  node_reach (KPar false w a b) n ->
+  n_alive n = false -> term_of (n_cout n) = Some DComplete -> n_cancelled n = false ->
+  Permutation (elems_of (n_cout n)) (map (pf a b) (elems_of (n_cin n))).
+Proof. exact upar_spec. Qed.
+
+(* Demand safety of the flowActor: for every message sequence with non-negative requests the stage never
+   emits more elements than downstream requested, and downstreamDemand = requested - emitted >= 0. *)
+Theorem C45_flow_never_emits_beyond_demand : forall o c script st' acts,
+  Forall req_ok script -> flow_run o c (flow_init o) script = (st', acts) ->
+  0 <= f_demand st' /\
+  f_demand st' + n_elems acts = fold_right (fun m a => requested m + a) 0 script.
+Proof.
+  intros o c script st' acts Hok H.
+  exact (flow_demand_safe o c script (flow_init o) st' acts Hok (Z.le_refl 0) H).
+Qed.
+
 Print Assumptions C45_sink_receives_list_semantics.
+Print Assumptions C45_parallel_unordered_is_a_permutation.
+Print Assumptions C45_flow_never_emits_beyond_demand.
 Print Assumptions C45_first_stage_error_ends_the_stream.
 Print Assumptions C45_any_materialisation.
 Print Assumptions C45_plan_keeps_operators.
